@@ -151,6 +151,7 @@ static void run_case(Case &c)
     Rng &r = c.rng;
     SongOpts so; so.max_tracks = 8; so.max_events = (int)g_w.optnum("maxevents", 40); so.tempo_changes = true; so.lone_eot = true; so.big_deltas = r.chance(0.1);
     so.game_ccs = r.chance(0.5) ? 0 : r.chance(0.5) ? 1 : 2;
+    so.devices = r.chance(0.3);       // tracks name their MIDI port (FF 09): their channels are 16+ inside the player
     Song song = gen_song(r, so);
     // keep songs short in real time: slow tempi with big divisions make audio-driven runs expensive
     std::vector<uint8_t> file = serialize_song(song);
@@ -185,7 +186,7 @@ static void run_case(Case &c)
     if(r.chance(0.35))
     {   // the device has played (part of) another song before: nothing of its per-track play state may survive the load
         Rng rp(r.next(), 11, 0);
-        SongOpts po; po.max_tracks = 8; po.max_events = 20; po.tempo_changes = true;
+        SongOpts po; po.max_tracks = 8; po.max_events = 20; po.tempo_changes = true; po.devices = rp.chance(0.5);
         Song prev = gen_song(rp, po);
         std::vector<uint8_t> pf = serialize_song(prev);
         int rc0 = 0;
@@ -223,11 +224,74 @@ static void run_case(Case &c)
     if(fabs(len - (ref_len + 1.0)) > 1e-6 + ref_len * 1e-9)
         c.violation("oracle:C07:reported-length", vfmt("opn2_totalTimeLength %.9f, reference (last event %.9f s + 1 s) = %.9f; format %d tracks %d division %d", len, ref_len, ref_len + 1.0, song.format, nt, song.division));
 
+    // which port does a track play on? Port 0 = no port name, or the first name that is played in the whole song (the player numbers
+    // the names in the order they are first met); decided only where the file leaves no doubt
+    std::vector<int> port0((size_t)nt, 1);       // 1 surely port 0, 0 surely another port, -1 not decided here
+    {
+        std::string first_name; uint64_t first_tick = ~0ull; bool any = false;
+        for(int t = 0; t < nt; t++) for(size_t i = 0; track_enabled(t) && i < song.tracks[(size_t)t].ev.size(); i++)      // a gated track's port names are not played
+        {
+            const SEv &e = song.tracks[(size_t)t].ev[i];
+            if(e.status == 0xFF && e.meta == 0x09 && e.tick < first_tick) { first_tick = e.tick; first_name.assign(e.data.begin(), e.data.end()); any = true; }
+        }
+        for(int t = 0; t < nt && any; t++)
+        {
+            const std::vector<SEv> &ev = song.tracks[(size_t)t].ev;
+            int names = 0, same = 0; bool at_start = false, seen_chan = false;
+            for(size_t i = 0; i < ev.size(); i++)
+            {
+                if(ev[i].status == 0xFF && ev[i].meta == 0x09) { if(!names && ev[i].tick == 0 && !seen_chan) at_start = true; names++; if(std::string(ev[i].data.begin(), ev[i].data.end()) == first_name) same++; }
+                else if(ev[i].is_chan()) seen_chan = true;
+            }
+            if(names == 0 || same == names) port0[(size_t)t] = (first_tick == 0 || names == 0) ? 1 : -1;
+            else if(same == 0 && at_start) port0[(size_t)t] = 0;
+            else port0[(size_t)t] = -1;
+            if(names && first_tick != 0) port0[(size_t)t] = -1;      // numbering depends on what is played first: leave it
+        }
+    }
+    size_t cap_seen = 0; bool gating_note_seen = false, enabled_note_missing = false;
+    auto after_call = [&]()
+    {
+        OPNMIDIplay *p = P(d);
+        // the last note event handed over in this call
+        const DEv *last = NULL;
+        for(size_t i = cap_seen; i < cap.ev.size(); i++) if(cap.ev[i].type == 0x9 || cap.ev[i].type == 0x8) last = &cap.ev[i];
+        // ... with nothing behind it that could end it again (all-notes-off controllers, resets, port changes, end of track)
+        if(last) for(size_t i = (size_t)(last - &cap.ev[0]) + 1; i < cap.ev.size(); i++) if(cap.ev[i].type == 0xFF || cap.ev[i].type == 0xF0 || cap.ev[i].type == 0xF7 || ((cap.ev[i].channel & 7) == (last->channel & 7))) { last = NULL; break; }
+        cap_seen = cap.ev.size();
+        if(gated && !gating_note_seen)
+            for(int ch = 0; ch < 16 && ch < (int)p->m_midiChannels.size(); ch++)
+            {
+                bool off = !gate.chan_on[ch] || !track_enabled(ch % 8 < nt ? ch % 8 : 0);
+                if(off && ch % 8 < nt && !p->m_midiChannels[(size_t)ch].activenotes.empty())
+                { gating_note_seen = true; c.violation("oracle:C07:gated-channel-holds-note", vfmt("MIDI channel %d (track %d %s, channel %s) holds an active note", ch, ch % 8, track_enabled(ch % 8) ? "enabled" : "disabled", gate.chan_on[ch] ? "enabled" : "disabled")); }
+            }
+        // and the other way round: the note-on of an enabled track on a channel that is not disabled starts a note
+        if(!last || last->type != 0x9 || last->data.size() < 2 || enabled_note_missing) return;
+        int ch = last->channel, t = ch % 8, key = last->data[0] & 127;
+        if(t >= nt || !track_enabled(t) || port0[(size_t)t] < 0) return;
+        if(port0[(size_t)t] == 1 && !gate.chan_on[ch]) return;               // a disabled channel of the first port: silent (checked above)
+        std::vector<OPNMIDIplay::OpnChannel> &cc = VA::chipChannels(p);
+        size_t busy = 0; for(size_t i = 0; i < cc.size(); i++) if(!cc[i].users.empty()) busy++;
+        if(busy >= cc.size()) return;                                          // polyphony exhausted: C06's business
+        bool found = false;
+        for(size_t m = (size_t)ch; m < p->m_midiChannels.size() && !found; m += 16)
+            if(!p->m_midiChannels[m].find_activenote((unsigned)key).is_end()) found = true;
+        count("noteons_of_enabled_channels_checked");
+        if(port0[(size_t)t] == 0) count("noteons_on_further_ports_checked");
+        if(!found)
+        {
+            if(getenv("VERIF_C07_DBG")) { fprintf(stderr, "[dbg] channels %zu first-port-status:", p->m_midiChannels.size()); for(int q = 0; q < nt; q++) fprintf(stderr, " %d", port0[(size_t)q]); fprintf(stderr, "\n"); for(int q = 0; q < nt; q++) for(size_t i = 0; i < song.tracks[(size_t)q].ev.size(); i++) { const SEv &e = song.tracks[(size_t)q].ev[i]; if(e.status == 0xFF && e.meta == 0x09) fprintf(stderr, "[dbg] trk %d idx %zu tick %llu name %s\n", q, i, (unsigned long long)e.tick, std::string(e.data.begin(), e.data.end()).c_str()); } for(size_t m = 0; m < p->m_midiChannels.size(); m++) if(!p->m_midiChannels[m].activenotes.empty()) fprintf(stderr, "[dbg] midi channel %zu has notes\n", m); }
+            enabled_note_missing = true;
+            c.violation(vfmt("oracle:C07:note-of-enabled-channel-not-started:%s", port0[(size_t)t] == 0 ? (gate.chan_on[ch] ? "further-port" : "further-port:same-number-disabled-on-first-port") : "first-port"),
+                        vfmt("track %d (enabled, %s) note-on channel %d key %d was handed over but no MIDI channel %d(+16k) holds the note afterwards although %zu of %zu chip channels are free; channel %d of the first port is %s",
+                             t, port0[(size_t)t] == 0 ? "on a further MIDI port" : "first port", ch, key, ch, cc.size() - busy, cc.size(), ch, gate.chan_on[ch] ? "enabled" : "disabled"));
+        }
+    };
+
     // drive
     short pcm[2 * 4096 + 16];
     long guard = 0;
-    StateSnap snap; Tap tap;   // tap unused (no key state needed), snapshot for gating check
-    bool gating_note_seen = false;
     if(drive == 0)
     {
         double delay = 0;
@@ -235,6 +299,7 @@ static void run_case(Case &c)
         {
             cap.prev_acc_t = cap.acc_t; cap.acc_t += delay; cap.call++;
             double nd = 0; API("opn2_tickEvents", nd = opn2_tickEvents(d, delay, g));
+            after_call();
             int end = 0; API("opn2_atEnd", end = opn2_atEnd(d));
             if(end) break;
             delay = nd;
@@ -248,6 +313,7 @@ static void run_case(Case &c)
             double step = first ? 0.0 : dt_fixed; first = false;
             cap.prev_acc_t = cap.acc_t; cap.acc_t += step; cap.call++;
             double nd = 0; API("opn2_tickEvents", nd = opn2_tickEvents(d, step, g)); (void)nd;
+            after_call();
             int end = 0; API("opn2_atEnd", end = opn2_atEnd(d));
             if(end) break;
         }
@@ -260,16 +326,7 @@ static void run_case(Case &c)
             if(want > 8192) want = 8192;
             cap.call++;
             int got = 0; API("opn2_play", got = opn2_play(d, want, pcm));
-            if(gated && !gating_note_seen)
-            {
-                OPNMIDIplay *p = P(d);
-                for(int ch = 0; ch < 16 && ch < (int)p->m_midiChannels.size(); ch++)
-                {
-                    bool off = !gate.chan_on[ch] || !track_enabled(ch % 8 < nt ? ch % 8 : 0);
-                    if(off && ch % 8 < nt && !p->m_midiChannels[(size_t)ch].activenotes.empty())
-                    { gating_note_seen = true; c.violation("oracle:C07:gated-channel-holds-note", vfmt("MIDI channel %d (track %d %s, channel %s) holds an active note", ch, ch % 8, track_enabled(ch % 8) ? "enabled" : "disabled", gate.chan_on[ch] ? "enabled" : "disabled")); }
-                }
-            }
+            after_call();
             int end = 0; API("opn2_atEnd", end = opn2_atEnd(d));
             if(end || got == 0) break;
         }
@@ -284,6 +341,7 @@ static void run_case(Case &c)
     {
         const DEv &e = cap.ev[i];
         if(is_song_begin_marker(e)) { begin_markers++; if(e.acc_t != 0 && drive != 2) c.violation("oracle:C07:song-begin-marker-not-at-zero", vfmt("synthetic song-begin marker delivered at %.9f", e.acc_t)); continue; }
+        if(e.type == 0xFF && e.subtype == 0x09) { count("port_name_events_delivered"); continue; }     // not attributed (names are shared between tracks)
         int t = track_of(e, nt);
         if(e.type == 0xFF && e.subtype == 0xE1 && e.data.empty() && song.hmi_track >= 0) { t = song.hmi_track; count("cc110_loop_start_markers_delivered"); }
         if(t == -2) { eots.push_back(e); continue; }
@@ -306,6 +364,7 @@ static void run_case(Case &c)
         bool en = track_enabled(t);
         for(size_t i = 0; i < ev.size(); i++)
         {
+            if(ev[i].status == 0xFF && ev[i].meta == 0x09) continue;
             XE x = expected_of(ev[i], t);
             // the first CC110 of a file is the sequencer's loop start marker: handed over as the internal marker event, not as a controller
             if(x.cls == CL_CTRL && x.e.type == 0xB && x.e.data.size() == 2 && x.e.data[0] == 110 && song.hmi_track == t) { x.cls = CL_META; x.e.type = 0xFF; x.e.subtype = 0xE1; x.e.data.clear(); }
